@@ -322,6 +322,38 @@ def rule_d(prog, chk):
            key="C20d|db_polygon|stored-value")
     chk.ob("C20d", "db_polygon tests the coordinates of the sample it stores the answer for", f.loc(st), same_rank,
            key="C20d|db_polygon|same-rank")
+    # the stored value belongs to THIS sample: on every path from the head of the sample loop to the store, the value is
+    # (re)defined inside the iteration (nothing carried over from the previous sample)
+    fresh = False
+    wit = None
+    if ok_val:
+        loop = None
+        for a_ in f.ancestors(st):
+            if a_["k"] in ("For", "While", "ForRange"):
+                loop = a_
+                break
+        if loop is not None:
+            body = loop["c"][3] if loop["k"] == "For" else loop["c"][-1]
+            inside = {y["i"] for y in walk(body)}
+
+            def is_def(x):
+                if x["i"] not in inside:
+                    return False
+                if x["k"] == "VarDecl" and x.get("d") == sel and x.get("c"):
+                    return True
+                if x["k"] == "DeclStmt":
+                    return any(v is not None and v.get("d") == sel and v.get("c") for v in (x.get("c") or []))
+                return x["k"] == "Assign" and x.get("op") == "=" and x["c"][0] is not None and x["c"][0].get("d") == sel and \
+                    not any(y["k"] == "DeclRefExpr" and y.get("d") == sel for y in walk(x["c"][1]))
+            first = [y for y in walk(body) if g.pos_of(y) is not None]
+            if first:
+                wit = g.search(g.pos_of(first[0]), is_target=lambda x: x["i"] == st["i"], is_barrier=is_def)
+                # the first element itself may be the definition
+                fresh = wit is None
+    chk.ob("C20d", "db_polygon: the value stored for a sample is defined during the iteration of that sample", f.loc(st), fresh,
+           detail=None if fresh else "a path from the head of the sample loop reaches the store without (re)defining the value: a sample that is not "
+           "tested (masked under flag_sel) inherits the answer of the previous sample",
+           key="C20d|db_polygon|fresh-value", path=None if fresh or wit is None else g.describe(wit))
 
 
 def main(tier):
